@@ -1,6 +1,8 @@
 package sim
 
 import (
+	"math"
+
 	"verif/sim/core"
 	"verif/sim/ref"
 )
@@ -13,9 +15,25 @@ var windowKinds = []ref.OpKind{ref.Update, ref.Recover, ref.Deactivate}
 const (
 	windowFroms  = 11
 	windowUntils = 8
-	// WindowVariants is the number of grid points per configuration.
-	WindowVariants = 3 * windowFroms * windowUntils
+	windowGrid   = 3 * windowFroms * windowUntils
+	// WindowVariants is the number of grid points per configuration: the grid around t plus the int64 corner pairs.
+	WindowVariants = windowGrid + 3*windowCorners
+	windowCorners  = 26
 )
+
+// windowCorner is the i-th (from, until) pair at the edges of the int64 range (0 = absent), for anchoring time t and default
+// lifetime delta: places where from + delta, until - t or t - from leave the range if computed carelessly, and integers
+// beyond 2^53 that a float64 round trip would change.
+func windowCorner(i int, t, delta int64) (from, until int64) {
+	const minI, maxI, big = math.MinInt64, math.MaxInt64, int64(1)<<53 + 1
+	pairs := [windowCorners][2]int64{
+		{0, minI}, {0, minI + t - 1}, {0, minI + t}, {0, minI + t + 1}, {0, maxI}, {0, maxI - 1}, {0, big}, {0, -big},
+		{minI, 0}, {minI, minI}, {minI, t}, {minI, maxI}, {minI + 1, 0}, {minI + t - 1 - delta, 0}, {minI + t - delta, 0},
+		{-5, minI + 1}, {-big, 0}, {-big, t}, {t, maxI}, {big, 0}, {big, maxI}, {maxI, 0}, {maxI, maxI}, {maxI - delta, 0},
+		{maxI - delta + 1, 0}, {t - delta, maxI},
+	}
+	return pairs[i][0], pairs[i][1]
+}
 
 // GenWindow builds the plan for (seed, variant).
 func GenWindow(seed uint64, variant int, pool *Pool) *Plan {
@@ -28,6 +46,10 @@ func GenWindow(seed uint64, variant int, pool *Pool) *Plan {
 	kind := windowKinds[variant%3]
 	fi := (variant / 3) % windowFroms
 	ui := (variant / (3 * windowFroms)) % windowUntils
+	corner := -1
+	if variant >= windowGrid {
+		corner, fi, ui = (variant-windowGrid)/3, 0, 0
+	}
 
 	d := &genDID{}
 	create := opStep(r, pool, s, d, ref.Create, ref.FNone, false)
@@ -94,14 +116,21 @@ func GenWindow(seed uint64, variant int, pool *Pool) *Plan {
 		// grid points defined relative to from do not exist without from: use distinct absolute expiries instead
 		until = t + int64(ui)*1000
 	}
+	if corner >= 0 {
+		from, until = windowCorner(corner, t, delta)
+	}
 	op := opStep(r, pool, s, d, kind, ref.FNone, false)
 	op.HasFrom, op.HasUntil, op.Abs = from != 0, until != 0, true
 	op.From, op.Until = from, until
-	if op.Until < 0 {
+	if op.Until < 0 && corner < 0 {
 		op.Until, op.HasUntil = 0, false
 	}
 	op.Via = "both"
 	op.Builder = core.Pick(r, []string{"raw", "lib"})
+	if corner >= 0 {
+		// the library's builders canonicalise through float64 and cannot express integers beyond 2^53
+		op.Builder = "raw"
+	}
 	p.Steps = append(p.Steps, op, Step{Op: STick, Secs: s.BlockInterval * 2})
 	if kind != ref.Deactivate {
 		// a follow-up update shows that the commitment advanced although the window was missed
